@@ -217,6 +217,31 @@ def standin(tier, seed):
         if style == "closing" and closed != [1]:
             fail("the response iterable's close() was called %d times" % len(closed), status=status)
     samples.append({"host": "[::1]:8080", "expect": {"SERVER_NAME": "[::1]", "SERVER_PORT": "8080"}})
+    # an application that keeps its response headers in one list and hands it to start_response for every request (F-58): each response still carries its own length
+    from pyvc.standin import spec_http
+    for style in ("same-list-every-request", "fresh-list"):
+        SHARED = [("Content-Type", "text/plain"), ("X-App", "1")]
+        bodies = [b"first", b"second-longer-body", b"", b"4th!"]
+        seen = {"n": 0}
+
+        def app3(environ, start_response):
+            b = bodies[seen["n"]]
+            seen["n"] += 1
+            start_response("200 OK", SHARED if style == "same-list-every-request" else list(SHARED))
+            return [b]
+        raw3 = b"".join(b"GET /%d HTTP/1.1\r\nHost: h\r\n\r\n" % k for k in range(len(bodies)))
+        res = S.run_server([raw3], make_app=lambda r: TW.WSGIContainer(app3), eof=False, after=more_ticks)
+        evals += 1
+        nontriv.add(("header-list-reuse", style))
+        try:
+            resps = spec_http.read_responses(bytes(res.sent), ["GET"] * len(bodies), res.closed)
+            got = [r_["body"] for r_ in resps]
+        except spec_http.Reject as e:
+            got = "unreadable: %s" % e
+        if got != bodies:
+            fail("%d requests to an application whose header list is the %s: bodies on the wire %r, the application produced %r" % (len(bodies), style.replace("-", " "), got, bodies), style=style)
+        elif style.startswith("same") and len(SHARED) != 2:
+            fail("the application's own header list was changed: %r" % (SHARED,), style=style)
     return {"evaluations": evals, "distinct_nontrivial": len(nontriv), "failures": failures[:3], "samples": samples,
             "rule": "real HTTPServer + WSGIContainer on the scripted transport: %d Host forms x 3 methods x %d targets (percent-escapes incl. %%2F, non-UTF-8) with bodies and repeated "
                     "headers -> the environ the application receives (sampled in quick); %d statuses x %d header sets x %d chunkings x {iterable, write(), iterable with close()} -> "
